@@ -86,6 +86,10 @@ func TestVerifC05(t *testing.T) {
 					s.SubmitGen(g)
 				}
 			}
+			// kills along every relationship the ledger holds, by the entitled party and by strangers
+			for _, g := range w.RelationTxs(s.R) {
+				twinSpend(w, twin, rep, g)
+			}
 			res := s.Step()
 			if len(res.Errs) > 0 {
 				rep.Note("scenario %d stopped at step %d: block refused (%v)", sc, i, res.Errs)
@@ -114,6 +118,7 @@ func twinSpend(w *World, twin *Replica, rep *verifutil.Report, g *Gen) {
 		}
 	}
 	senderStatus := pre.GetIdentityState(signer)
+	rep.Count("attempted_relation:"+rel, 1) // also the attempts validation refuses (as it must for most hostile relations)
 	tr, err := w.Twin(twin, tx, true)
 	if err != nil || tr == nil {
 		return
